@@ -139,9 +139,9 @@ fn main() {
         let w = build_pub_wrapper(m, 1, &leaf.data.common);
         let cx = Cx::new(&w.data);
         let b1 = dig(1);
-        let bhs = [Z4, b1, dig(2), bump(b1, 3)];
+        let bhs = [Z4, b1, dig(2), bump(b1, 3), shift(b1)];
         let mut heads: Vec<Vec<usize>> = Vec::new();
-        product_indices(&[4, 2, 2], |ix| heads.push(ix.to_vec()));
+        product_indices(&[5, 2, 2], |ix| heads.push(ix.to_vec()));
         let mk = |ix: &Vec<usize>, k: u64| {
             let mut pis = vec![2, [0u64, 1][ix[1]], [0u64, 7][ix[2]]];
             pis.extend_from_slice(&bhs[ix[0]]);
